@@ -88,14 +88,16 @@ pub fn cli_truncate(ctx: &mut Ctx) {
             }
             let desc = json!({"case":case,"solid":solid,"parts":parts.len(),"complete_parts_kept":keep,"next_part": match next { None => "absent".to_string(), Some(c) => format!("cut at {c} of {}", parts[keep].1.len()) }});
             ctx.count(match next { None => "prefix:next-part-absent", Some(0) => "prefix:next-part-empty", Some(_) => "prefix:cut-inside-a-part" });
-            for cmd in 0..3 {
+            for cmd in 0..4 {
                 let _ = std::fs::remove_dir_all(sbx.path("o"));
                 let args: Vec<&str> = match cmd {
                     0 => vec!["list", first.as_str()],
                     1 => vec!["list", "-l", "--solid", first.as_str()],
-                    _ => vec!["--quiet", "extract", first.as_str(), "--out-dir", "o", "--overwrite"],
+                    2 => vec!["--quiet", "extract", first.as_str(), "--out-dir", "o", "--overwrite"],
+                    // last (it may write to the archive): `append` looks for the end marker by skipping chunks — it must come back
+                    _ => vec!["--quiet", "append", first.as_str(), "t/f1.bin"],
                 };
-                let r = run_pna(&sbx, &sbx.root, &args, None, 30, &[]);
+                let r = run_pna(&sbx, &sbx.root, &args, None, if cmd == 3 { 15 } else { 30 }, &[]);
                 ctx.oracle_eval();
                 let attrs = json!({"prefix":desc,"argv":args,"run":r.brief()});
                 if r.crashed() || r.hung() {
@@ -103,6 +105,7 @@ pub fn cli_truncate(ctx: &mut Ctx) {
                     ctx.violation("C07", "a command crashed or hung on a truncated archive", attrs);
                     continue;
                 }
+                if cmd == 3 { continue; }
                 if r.ok() {
                     ctx.violation("C06", "a proper prefix of an archive (or of a multipart sequence) was read with exit status 0", attrs.clone());
                 }
